@@ -609,3 +609,80 @@ func Render(s *hx.Schema, m *Mutation, o hx.SDLOpts) string {
 func fmtMutation(m Mutation) string {
 	return fmt.Sprintf("%s (%s at %s, offender one of %v)", m.Kind, m.Rule, m.Position, m.Names)
 }
+
+// LateForms writes a mutated definition set as two successive loads with the offending part arriving
+// last: the raw tail as a document of its own, or the offending member moved into an extend block
+// that is loaded after everything else. The full set is the same ill-formed set, so some load has to
+// be refused.
+func LateForms(ms *hx.Schema, m *Mutation, o hx.SDLOpts) (forms [][]string) {
+	if m.Tail != "" {
+		return [][]string{{ms.SDL(o), m.Tail + "\n"}}
+	}
+	for _, n1 := range m.Names {
+		if ms.Type(n1) == nil || ms.Type(n1).Kind == hx.KScalar {
+			continue
+		}
+		for _, n2 := range m.Names {
+			if n2 == n1 {
+				continue
+			}
+			s2 := clone(ms)
+			td := s2.Type(n1)
+			ext := &hx.TypeDef{Kind: td.Kind, Name: td.Name}
+			switch td.Kind {
+			case hx.KObject, hx.KInterface:
+				at := -1
+				for i, f := range td.Fields {
+					if f.Name == n2 {
+						at = i
+					}
+				}
+				if at < 0 || len(td.Fields) < 2 {
+					continue
+				}
+				ext.Fields = []*hx.Field{td.Fields[at]}
+				td.Fields = append(td.Fields[:at:at], td.Fields[at+1:]...)
+			case hx.KEnum:
+				at := -1
+				for i, v := range td.Values {
+					if v.Name == n2 {
+						at = i
+					}
+				}
+				if at < 0 || len(td.Values) < 2 {
+					continue
+				}
+				ext.Values = append(ext.Values, td.Values[at])
+				td.Values = append(td.Values[:at:at], td.Values[at+1:]...)
+			case hx.KInput:
+				at := -1
+				for i, f := range td.Inputs {
+					if f.Name == n2 {
+						at = i
+					}
+				}
+				if at < 0 || len(td.Inputs) < 2 {
+					continue
+				}
+				ext.Inputs = []*hx.Arg{td.Inputs[at]}
+				td.Inputs = append(td.Inputs[:at:at], td.Inputs[at+1:]...)
+			case hx.KUnion:
+				at := -1
+				for i, mem := range td.Members {
+					if mem == n2 {
+						at = i
+					}
+				}
+				if at < 0 || len(td.Members) < 2 {
+					continue
+				}
+				ext.Members = []string{td.Members[at]}
+				td.Members = append(td.Members[:at:at], td.Members[at+1:]...)
+			default:
+				continue
+			}
+			forms = append(forms, []string{s2.SDL(o), hx.TypeSDL(ext, "extend ", o)})
+		}
+	}
+	return
+}
